@@ -13,6 +13,8 @@ def x_only(prop, level="proof", explanation=None):
         run_x(out, progs, prop)
         if prop in ("C06", "C11"):
             gen.add_obligations(out, prop)
+        from . import meta
+        meta.add_obligations(out, prop)
         return finish(out, level, KANI_CMD, explanation)
     return f
 
